@@ -66,7 +66,7 @@ Section Relax.
           else
             let '(cmpv, d0) := if diff_eqb d DiffMajor then (nx, DiffMinor) else (lst, d) in
             let best := best_loop l cmpv d0 next_pre above nx in
-            Some (if diff_eqb d0 DiffPatch then Tilde else Caret, best)
+            Some (if Z.leb (diff_code DiffPatch) (diff_code d0) then Tilde else Caret, best)
       end.
 
   (* ---- specification side *)
@@ -85,12 +85,11 @@ Section Relax.
     | Caret => negb (diff_eqb (dif_or_other best v) DiffMajor)
     end.
 
-  (* the domain on which the emitted range stays within the level: a valid level, and not a caret
-     range emitted under level patch *)
-  Definition relax_range_dom (l : level) (op : rop) : bool :=
-    match l with
-    | Major | Minor => true
-    | Patch => rop_eqb op Tilde
-    | LNone | LInvalid => false
-    end.
+  (* the levels a configuration can hold *)
+  Definition valid_level (l : level) : bool :=
+    match l with Major | Minor | Patch => true | LNone | LInvalid => false end.
+
+  (* premise about Difference used with a strictly ascending version list: two versions that differ in
+     the order differ in a classified component (never Same / Other) *)
+  Definition classified (d : diff) : bool := Z.leb 2 (diff_code d).
 End Relax.
